@@ -368,7 +368,7 @@ def _reparse_raw(self: fst.FST, code: Code | None, ln: int, col: int, end_ln: in
     if not reparsed:
         root = self.root
 
-        if reparsed is None:  # the change did not stay within the statement, everything could have changed so reparse from root
+        if reparsed is None or self is not root:  # the change did not stay within the statement, or there is no statement at all (expression root) and nothing says the change stays within `self`: everything could have changed so reparse from root
             self = root
 
         if ((mode := root.a.__class__) is not Slice
